@@ -3,6 +3,7 @@ CONSTANTS
   Keys = {1, 2, 3}
   Caps = {1, 2, 3}
   MaxLen = 4
+  NilPuts = TRUE
   Conc = FALSE
   Threads = {0}
 INIT Init
